@@ -243,7 +243,8 @@ func genCase(t *rapid.T) Case {
 			}
 		}
 	case "btree":
-		c.IntUS = rapid.SampledFrom([]int{1, 1, 2, 5, 10, 50, 100, 300, 1000}).Draw(t, "interval_us")
+		// (3600000000: a worker that does not tick once during the program - stop requests must not wait for a tick)
+		c.IntUS = rapid.SampledFrom([]int{1, 1, 2, 5, 10, 50, 100, 300, 1000, 3600000000}).Draw(t, "interval_us")
 		c.BudUS = rapid.SampledFrom([]int{1, 5, 20, 50}).Draw(t, "budget_us")
 		c.Loops = rapid.IntRange(1, 12).Draw(t, "loops")
 		// Three classes. calm: incremental mode is on before the goroutines start and the foreground never empties
